@@ -336,6 +336,7 @@ func c05R5(c *Ctx) {
 	}
 	pkgs := []string{"chain/app/evm", "gemmill/state", "gemmill/plugin", "gemmill/types", "gemmill/modules/go-merkle"}
 	found := map[string]string{}
+	foundFn := map[string]*ssa.Function{}
 	for _, pk := range pkgs {
 		for _, fn := range c.P.FuncsOfPkg(pk) {
 			if fn.Blocks == nil {
@@ -352,6 +353,7 @@ func c05R5(c *Ctx) {
 					case *ssa.Range:
 						if _, isMap := x.X.Type().Underlying().(*types.Map); isMap {
 							found["maprange:"+name] = c.Pos(x)
+							foundFn["maprange:"+name] = fn
 						}
 					case ssa.CallInstruction:
 						n := cfgx.CalleeName(x)
@@ -361,6 +363,7 @@ func c05R5(c *Ctx) {
 						switch {
 						case n == "time.Now" || n == "time.Since" || n == "time.After" || n == "time.NewTimer" || n == "time.Sleep" || n == "time.NewTicker" || n == "time.Tick":
 							found["time:"+name] = c.Pos(x)
+							foundFn["time:"+name] = fn
 						case strings.HasPrefix(n, "math/rand.") || strings.HasPrefix(n, "crypto/rand.") || strings.Contains(n, "go-common.Rand"):
 							found["rand:"+name] = c.Pos(x)
 						case n == "runtime.NumCPU" || n == "runtime.GOMAXPROCS":
@@ -378,6 +381,19 @@ func c05R5(c *Ctx) {
 	sort.Strings(keys)
 	for _, k := range keys {
 		why, ok := reviewed[k]
+		if !ok && foundFn[k] != nil {
+			// an unexported helper called only from functions reviewed for the same kind of source
+			kind := k[:strings.Index(k, ":")+1]
+			allowed := map[string]bool{}
+			for rk := range reviewed {
+				if strings.HasPrefix(rk, kind) {
+					allowed[strings.TrimPrefix(rk, kind)] = true
+				}
+			}
+			if c.helperOnlyCalledFrom(foundFn[k], allowed) {
+				why, ok = "unexported helper called only from reviewed functions of the same kind", true
+			}
+		}
 		if ok {
 			c.R.Ob(rule, k, true, found[k], "", "reviewed: "+why)
 		} else {
